@@ -108,8 +108,11 @@ def list_by_label(ctx, case):
             ctl.add_message(w, ci)     # (messages on objects that were never created carry no connection: ill-formed, outside)
         w.ctl.process_command('connection all')
         # the same labels may have been used in earlier commands of the session (filters accumulate; that must not leak into a later `list`)
-        earlier = ctx.choose([None, 'filters', 'breakpoints'], 'labels_used_before')
-        if earlier is not None:
+        earlier = ctx.choose([None, 'filters', 'breakpoints', 'narrow-filter'], 'labels_used_before')
+        if earlier == 'narrow-filter':
+            # a filter that hides everything is in force: what `list <label>` returns is a matter of the label, not of the filter
+            w.ctl.process_command('filter wl_zzz')
+        elif earlier is not None:
             cmdname = 'filter ' if earlier == 'filters' else 'breakpoint '
             w.ctl.process_command(cmdname + 'wl_zzz')
             for ci in (1, 0):
